@@ -27,6 +27,7 @@ type xm struct {
 	kids  []*xm
 	why   string
 	reqs  []attrReq
+	pre   *string // exact content expected inside a <pre> (replaces the own-text comparison)
 }
 
 // attrReq: the attribute's value must (want) / must not contain needle - as a whitespace
@@ -62,6 +63,7 @@ type interp struct {
 	u      undef
 	scopes []map[string]vals.V
 	stats  map[string]int // classes observed while interpreting (for the coverage histogram)
+	raw    *strings.Builder // inside a <pre>: the exact content produced so far
 }
 
 func (in *interp) stat(s string) {
@@ -128,6 +130,12 @@ func field(v vals.V, name string) (vals.V, bool) {
 			return vals.V{}, false
 		}
 		return f, true
+	case "*task", "task":
+		if name == "ID" || name == "Title" {
+			x, has := v.M[name]
+			return x, has
+		}
+		return vals.V{}, false
 	case "emb", "pemb", "*emb":
 		// Title is the struct's own field, the others are promoted from the embedded Base
 		if !embAlias[name] {
@@ -190,6 +198,24 @@ func elems(v vals.V) []vals.V {
 		return typed("float64")
 	case "[]bool":
 		return typed("bool")
+	case "[]flag":
+		return typed("flag")
+	case "[]name":
+		return typed("name")
+	case "[]*task", "[]task":
+		out := make([]vals.V, len(v.L))
+		for i, e := range v.L {
+			out[i] = vals.V{K: strings.TrimPrefix(v.K, "[]"), M: e.M}
+		}
+		return out
+	case "[2]*task":
+		out := []vals.V{{K: "*task", M: map[string]vals.V{"ID": vals.Int(0), "Title": vals.Str("")}}, {K: "*task", M: map[string]vals.V{"ID": vals.Int(0), "Title": vals.Str("")}}}
+		for i, e := range v.L {
+			if i < 2 {
+				out[i] = vals.V{K: "*task", M: e.M}
+			}
+		}
+		return out
 	case "[]qty":
 		return typed("qty")
 	case "[2]ratio":
@@ -240,7 +266,7 @@ func elems(v vals.V) []vals.V {
 
 func isSeq(k string) bool {
 	switch k {
-	case "[]any", "[]string", "[]int", "[]float64", "[]bool", "[3]int", "[]map", "[]rec", "[]*rec", "nil[]any", "[]emb", "[]pemb", "[]*emb", "[]qty", "[2]ratio", "[]dur":
+	case "[]any", "[]string", "[]int", "[]float64", "[]bool", "[3]int", "[]map", "[]rec", "[]*rec", "nil[]any", "[]emb", "[]pemb", "[]*emb", "[]qty", "[2]ratio", "[]dur", "[]flag", "[]name", "[]*task", "[2]*task", "[]task":
 		return true
 	}
 	return false
@@ -248,16 +274,32 @@ func isSeq(k string) bool {
 
 func isScalar(k string) bool {
 	switch k {
-	case "string", "int", "float64", "bool", "qty", "ratio", "dur":
+	case "string", "int", "float64", "bool", "qty", "ratio", "dur", "flag", "name":
 		return true
 	}
 	return false
 }
 
+func isTask(k string) bool { return k == "*task" || k == "task" }
+
+// display is what {{ v }} / a bound attribute shows for a value: a *Task prints through its
+// String method (pointer receiver).
+func display(v vals.V) (string, bool) {
+	switch {
+	case isScalar(v.K):
+		return v.S, true
+	case v.K == "*task":
+		return "task#" + v.M["ID"].S + "(" + v.M["Title"].S + ")", true
+	}
+	return "", false
+}
+
 // truthOnly: items of a NAMED numeric type (Qty int, Ratio float32, time.Duration). Documented
 // truthiness applies (zero of any numeric type is falsy); comparing them with literals is a
 // cross-type comparison and not generated.
-func truthOnly(k string) bool { return k == "qty" || k == "ratio" || k == "dur" }
+func truthOnly(k string) bool {
+	return k == "qty" || k == "ratio" || k == "dur" || k == "flag" || k == "name"
+}
 
 func truthy(v vals.V) bool {
 	switch v.K {
@@ -265,6 +307,12 @@ func truthy(v vals.V) bool {
 		return num(v) != 0
 	case "dur":
 		return v.S != "0s"
+	case "flag":
+		return v.S == "true"
+	case "name":
+		return v.S != ""
+	case "*task", "task":
+		return true
 	}
 	t, _ := v.Truthy()
 	return t
@@ -353,6 +401,36 @@ func (in *interp) nodes(ns []Node) ([]*xm, string) {
 			in.stat("instance-local-binding")
 			if n.Set.If != nil && in.holds(*n.Set.If) {
 				out = append(out, &xm{id: n.Set.ID, why: "wrapper of the setter of " + n.Set.Name + ", " + in.scopeNote()})
+			}
+		case n.Pre != nil:
+			saved := in.raw
+			var sb strings.Builder
+			in.raw = &sb
+			kids, _ := in.nodes(n.Pre.Body)
+			in.raw = saved
+			content := sb.String()
+			in.stat("pre-block")
+			out = append(out, &xm{id: n.Pre.ID, kids: kids, pre: &content, why: "<pre> around loops"})
+		case n.Piece != nil:
+			val := ""
+			if n.Piece.Path != "" {
+				v, ok := in.resolve(n.Piece.Path)
+				d, can := display(v)
+				if !ok || !can {
+					panic("c04 generator: piece reads unbound / non-scalar " + n.Piece.Path)
+				}
+				val = d
+			}
+			if in.raw != nil {
+				if n.Piece.Tag != "" {
+					in.raw.WriteString("<" + n.Piece.Tag + ">" + val + "</" + n.Piece.Tag + ">")
+				} else {
+					in.raw.WriteString(val)
+				}
+				in.raw.WriteString(n.Piece.Ws)
+			}
+			if n.Piece.Tag == "" {
+				text.WriteString(val)
 			}
 		case n.List != nil:
 			// the component's own loop: one <li> per item, the slot content evaluated in the page's
@@ -452,6 +530,9 @@ func (in *interp) loop(l *Loop) ([]*xm, string) {
 				}
 			} else {
 				m := &xm{id: l.ID, why: why}
+				if in.raw != nil {
+					in.raw.WriteString("<" + l.Tag + ">")
+				}
 				if l.Bind != "" {
 					if v, ok := in.resolve(l.Bind); ok && isScalar(v.K) {
 						// falsy values: whether the attribute is kept is another property's business
@@ -476,6 +557,9 @@ func (in *interp) loop(l *Loop) ([]*xm, string) {
 					}
 				} else {
 					m.kids, m.text = in.nodes(l.Body)
+				}
+				if in.raw != nil {
+					in.raw.WriteString("</" + l.Tag + ">")
 				}
 				out = append(out, m)
 			}
@@ -515,11 +599,24 @@ func (in *interp) probe(p *Probe) *xm {
 			switch {
 			case !ok:
 				texts = append(texts, in.u.text)
-			case !isScalar(v.K):
-				panic("c04 generator: text read of non-scalar " + r.Path + " = " + v.String())
 			default:
-				texts = append(texts, v.S)
+				d, can := display(v)
+				if !can {
+					panic("c04 generator: text read of " + r.Path + " = " + v.String())
+				}
+				texts = append(texts, d)
 			}
+		case "type":
+			// the registered function type prints the Go type (%T) of its argument
+			if !ok || !isTask(v.K) {
+				panic("c04 generator: type() read of " + r.Path)
+			}
+			texts = append(texts, map[string]string{"*task": "*c04.Task", "task": "c04.Task"}[v.K])
+		case "fn":
+			if !ok || v.K != "*task" {
+				panic("c04 generator: tbadge() read of " + r.Path)
+			}
+			texts = append(texts, "["+v.M["Title"].S+"]")
 		case "tern":
 			switch {
 			case !ok:
@@ -565,10 +662,8 @@ func (in *interp) probe(p *Probe) *xm {
 				an = head(r.Path)
 			}
 			c := &xm{id: p.ID + "." + itoa(k), text: "a", why: ":" + an + "=" + r.Path + ", " + in.scopeNote()}
-			if ok && isScalar(v.K) {
-				if truthy(v) {
-					c.attrs = map[string]string{an: v.S}
-				}
+			if d, can := display(v); ok && can && truthy(v) {
+				c.attrs = map[string]string{an: d}
 			}
 			m.kids = append(m.kids, c)
 		}
